@@ -81,9 +81,15 @@ func c05Format(w *rt.W, id uu.ID, slow bool) {
 		if err != nil || string(mt) != want {
 			fail("format-marshaltext", "MarshalText", string(mt), want)
 		}
-		for _, vb := range []struct{ verb, want string }{{"%s", want}, {"%v", want}, {"%u", wantURN}} {
+		for _, vb := range []struct{ verb, want string }{{"%s", want}, {"%v", want}, {"%u", wantURN}, {"%+v", want}, {"%#v", want}, {"%+u", wantURN}, {"%-50s", want}, {"%.8s", want}, {"%060u", wantURN}} {
 			if s := fmt.Sprintf(vb.verb, id); s != vb.want {
 				fail("format-verb", "Sprintf "+vb.verb, s, vb.want)
+			}
+		}
+		// existing content that ends like the URN scheme must not change what is appended
+		for _, pre := range []string{"urn:uuid:", "see urn:uuid:", "URN:UUID:", "urn:uuid"} {
+			if b, err := uu.DefaultFormatter([]byte(pre), id, uu.FormatURN); err != nil || string(b) != pre+wantURN {
+				fail("format-urn-after-prefix", "DefaultFormatter("+pre+", FormatURN)", string(b), pre+wantURN)
 			}
 		}
 		w.Eval(6)
@@ -104,7 +110,7 @@ func c05Format(w *rt.W, id uu.ID, slow bool) {
 		c05Parse(w, t, 0, slow)
 	}
 	if slow {
-		var u uu.ID
+		u := uu.ID{Higher: 0x1111111111111111, Lower: 0x2222222222222222} // the receiver already holds another ID
 		if err := u.UnmarshalText([]byte(want)); err != nil || u != id {
 			fail("unmarshaltext", "UnmarshalText", fmt.Sprintf("%+v err=%v", u, err), "same ID")
 		}
@@ -198,6 +204,22 @@ func c05Parse(w *rt.W, text string, r uu.Rule, both bool) (accepted bool) {
 		}
 	}
 	return ok
+}
+
+func init() {
+	ids := []uu.ID{{}, {Higher: ^uint64(0), Lower: ^uint64(0)}, {Higher: 0xf81d4fae7dec11d0, Lower: 0xa76500a0c91e6bf6}, {Higher: 1, Lower: 1 << 63}}
+	coldCases["C05"] = coldGeneric([]func(){
+		func() { _, _ = uu.DefaultParser("00000000-0000-0000-0000-000000000000", 0) },
+		func() { _ = uu.ID{}.URN() },
+		func() {
+			_, _ = uu.DefaultParser("URN:uuid:FFFFFFFF-FFFF-FFFF-FFFF-FFFFFFFFFFFF", uu.RuleDisableUpperCaseDigits)
+		},
+		func() { _ = uu.RandomID() },
+		func() { var i uu.ID; _ = i.UnmarshalText([]byte("x")) },
+		func() {},
+	}, func(w *rt.W, k int) {
+		c05Format(w, ids[k], true)
+	}, len(ids))
 }
 
 func runC05(c *rt.Ctx) {
@@ -406,6 +428,28 @@ func runC05(c *rt.Ctx) {
 		}
 		collisionHistories(c, texts, 300, 200, func(w *rt.W, t string) { c05Parse(w, t, 0, true) })
 	}
+	{ // with the input limit raised or disabled only the two documented lengths are texts of an ID
+		oldL := uu.MaxInputLength
+		for _, limit := range []int{0, 54, 100, 46} {
+			uu.MaxInputLength = limit
+			c.Parallel(fmt.Sprintf("long-shapes-%d", limit), 0, func(w *rt.W) {
+				for k := 0; k < 4000/w.NShards; k++ {
+					t := ref.UUIDText(w.Rng.U64(), w.Rng.U64())
+					for _, s := range []string{"urn:uuid:urn:uuid:" + t, "urn:uuid:urn:uuid:urn:uuid:" + t, "urn:uuid:" + t + t[:9], t + t, "urn:uuid:" + t + "urn:uuid:", t + "-" + t[:8], "{" + t + "}", "urn:uuid:" + "{" + t + "}", t + strings.Repeat(" ", 9), strings.Repeat(" ", 9) + t, "uuid:urn:uuid:" + t, t[:36] + t[:9]} {
+						for _, r := range rules[:4] {
+							c05Parse(w, s, r, true)
+						}
+					}
+					c05Parse(w, t, 0, true)
+					c05Parse(w, "urn:uuid:"+t, uu.RuleDisableUpperCaseDigits, true)
+					w.ClassN("long-shape-with-limit-raised", 1)
+				}
+			})
+		}
+		uu.MaxInputLength = oldL
+		c.Require("long-shape-with-limit-raised", 10000)
+	}
+	coldStart(c, "C05", 12)
 	c.Exhaustive("all 6 pairs of separator positions x all 65,536 byte pairs on one valid text")
 	c.Require("separator-pair-substitution", 390000)
 	c.Require("single-byte-substitution", 100000)
